@@ -289,6 +289,11 @@ def simpleImpl (id : Nat) (args : List VRes) : EM (Option Val) :=
      | .ok (.bytes b) => .ok (some (.bytes (b ++ [124] ++ intBytes i ++ [124] ++ s)))
      | .error _ => .ok (some (.bytes ([33, 124] ++ intBytes i ++ [124] ++ s)))
      | _ => .error .badFunction)
+  | 4, [a, .ok (.int i), .error _] =>                                 -- opt2, absent third argument
+    (match a with
+     | .ok (.bytes b) => .ok (some (.bytes (b ++ [124] ++ intBytes i ++ [124] ++ [63])))
+     | .error _ => .ok (some (.bytes ([33, 124] ++ intBytes i ++ [124] ++ [63])))
+     | _ => .error .badFunction)
   | 5, [.ok (.bytes b)] => .ok (if b.isEmpty then none else some (.bytes b))  -- dropempty
   | 5, [.error _] => .ok none
   | 6, [.ok (.array _ xs)] => .ok (some (.int xs.length))             -- alen
